@@ -319,6 +319,96 @@ def reentrant_case(ctx, r):
             ctx.count("reentrant_function_cases_with_matches")
 
 
+_SAME = {}
+
+
+def same_query_envs():
+    """Environments whose function extension `again(v)` evaluates THE VERY compiled query that is being evaluated (held
+    in a box) over its argument, through a lazy entry point - next to a twin that computes the same number by hand."""
+    if _SAME:
+        return _SAME
+    import jsonpath
+    from jsonpath.function_extensions import ExpressionType, FilterFunction
+
+    text = "$.items[?@.price <= $.limit || again(@.included) > 0]"
+
+    def by_hand(v):
+        if not isinstance(v, dict) or not isinstance(v.get("items"), list):
+            return 0
+        lim = v.get("limit")
+        n = 0
+        for it in v["items"]:
+            if not isinstance(it, dict):
+                continue
+            p_ = it.get("price")
+            ok = isinstance(p_, (int, float)) and not isinstance(p_, bool) and isinstance(lim, (int, float)) and not isinstance(lim, bool) and p_ <= lim
+            if ok or ("included" in it and by_hand(it["included"]) > 0):
+                n += 1
+        return n
+
+    def make(caching, how):
+        env = jsonpath.JSONPathEnvironment(filter_caching=caching)
+        box = {}
+
+        class Again(FilterFunction):
+            arg_types = [ExpressionType.VALUE]
+            return_type = ExpressionType.VALUE
+
+            def __call__(self, v):
+                if not isinstance(v, (dict, list)):
+                    return 0
+                if how == "by-hand":
+                    return by_hand(v)
+                q = box["q"]
+                if how == "finditer":
+                    return len(list(q.finditer(v)))
+                if how == "query":
+                    return len(list(q.query(v).limit(1000).values()))
+                return 1 if q.match(v) is not None else 0   # "match": only > 0 matters to the query
+
+        env.function_extensions["again"] = Again()
+        box["q"] = env.compile(text)
+        return env, box["q"]
+
+    for caching in (True, False):
+        for how in ("finditer", "query", "match", "by-hand"):
+            _SAME[(caching, how)] = make(caching, how)
+    _SAME["by_hand"] = by_hand
+    return _SAME
+
+
+def same_query_case(ctx, r):
+    envs = same_query_envs()
+
+    def shop(depth):
+        d = {"limit": r.choice([0, 5, 50]), "items": []}
+        for i in range(r.randint(1, 4)):
+            it = {"price": r.choice([1, 7, 30, 99]), "id": "%d-%d" % (depth, i)}
+            if depth < 3 and r.random() < 0.6:
+                it["included"] = shop(depth + 1)
+            d["items"].append(it)
+        return d
+    doc = shop(0)
+    ctx.evaluation()
+    outs = {}
+    for key, val in envs.items():
+        if key == "by_hand":
+            continue
+        _env, q = val
+        for ep in ("findall", "finditer"):
+            o = impl.call(lambda: [canon(v) for v in q.findall(doc)] if ep == "findall" else [canon(m.obj) for m in q.finditer(doc)])
+            outs[(key, ep)] = ("ok", o.value) if o.ok else ("raise", type(o.exc).__name__)
+    ctx.count("same_query_reentrant_cases")
+    ref = outs[((False, "by-hand"), "finditer")]
+    for key, got in outs.items():
+        if got != ref:
+            ctx.violation("result-changes-when-a-function-extension-re-enters-the-query-being-evaluated", {"kind": "same-query", "doc": doc},
+                          {"caching": key[0][0], "re-entry through": key[0][1], "outer entry point": key[1], "got": repr(got)[:300], "by_hand_caching_off": repr(ref)[:300]})
+            return
+    if ref[0] == "ok" and ref[1]:
+        ctx.count("same_query_reentrant_cases_with_matches")
+
+
 def solo(text, doc, ex):
     """Reference: fresh environment with caching off, freshly compiled, fresh deep copy."""
     import jsonpath
@@ -678,6 +768,8 @@ def run(spec, ctx):
             per_node_context_case(ctx, r)
         for _ in range(25):
             reentrant_case(ctx, r)
+        for _ in range(40):
+            same_query_case(ctx, r)
         # (H4's one-context-per-cell rule assumes the stock match class, whose filter context is one
         # object per evaluation; the per-node class hands out a new mapping per node by design)
         MON.violations.clear()
@@ -737,6 +829,10 @@ def replay(case, ctx):
         ctx.evaluation()
         if a != b:
             ctx.violation("caching-changes-the-result-under-a-per-node-filter-context", case, {"caching_on": repr(a)[:300], "caching_off": repr(b)[:300]})
+        return
+    if kind == "same-query":
+        for _ in range(60):
+            same_query_case(ctx, ctx.rng)
         return
     if kind == "reentrant":
         envs = reentrant_envs()
